@@ -12,6 +12,8 @@ def boundaries(spec):
 
 
 def run(res, replay=None):
+    # structural tie of the propagation loops (_accumulate, cdf) of phasegen/distributions.py: translate the CURRENT source and re-check proofs/GenLoopsEquiv.v
+    import translate_step; (res.proof is not None) and translate_step.run(res.proof, pid=res.pid, tie='loops')
     rng = random.Random(res.seed)
     res.rule = ('cdf stream: random configurations (one locus: n<=4, 1-3 demes, three models, 1-3 epochs, half of them built with an early end_time on the Coalescent; two loci: n<=3, '
                 'Kingman); cdf at 0, interior points, exact epoch boundaries and beyond the last change (scalar and array '
